@@ -551,6 +551,14 @@ class Engine:
         declared = fn['path'] if fn else 'indirect'
         in_tr = mir.in_tracing(blk['tspan'])
 
+        # 0. `x.into()` resolves to the blanket impl; dispatch to the workspace From impl
+        if name == '<T as std::convert::Into<U>>::into' and fn and len(fn.get('targs') or []) >= 2:
+            tb = self.find_from_impl(fr.body.crate, fn['targs'][0], fn['targs'][1])
+            if tb is not None:
+                fn = dict(fn)
+                fn['resolved'] = {'path': tb.path}
+                fv = ('fn', fn)
+                name = tb.path
         # 1. summaries
         summ = self.summaries.get(name) or self.summaries.get(declared)
         if summ is not None:
@@ -586,6 +594,15 @@ class Engine:
         rv = T('call', name, n, *args)
         self.write(st, dest, rv)
         return self.goto(st, fr, bb, target, results)
+
+    def find_from_impl(self, crate, t_ix, u_ix):
+        t, u = crate.types[t_ix]['s'], crate.types[u_ix]['s']
+        for b in self.facts.bodies():
+            if b.name == 'from' and b.impl_trait == 'std::convert::From' and b.argc == 1:
+                if b.crate.tystr(b.locals[0]['ty']).split('::')[-1] == u.split('::')[-1] and \
+                        b.crate.tystr(b.locals[1]['ty']).split('::')[-1] == t.split('::')[-1]:
+                    return b
+        return None
 
     def finish_call(self, st, fr, bb, dest, target, res, work, results, site):
         """res: a value, or a list of (value, [(term, op, val)]) alternatives"""
